@@ -247,13 +247,47 @@ func main() {
 			return true
 		})
 	}
-	if fd := kf["gasToRefund"]; fd != nil && fd.Body != nil {
+	if fd := kf["gasToRefund"]; fd != nil && fd.Body != nil && fd.Type.Params != nil && len(fd.Type.Params.List) > 0 && len(fd.Type.Params.List[0].Names) > 0 {
+		avail := fd.Type.Params.List[0].Names[0].Name
+		quotVar := ""
 		ast.Inspect(fd.Body, func(n ast.Node) bool {
-			if be, ok := n.(*ast.BinaryExpr); ok && be.Op == token.QUO && calleeName(be.Y) == "RefundQuotientEIP3529" {
-				capQuot = true
+			if as, ok := n.(*ast.AssignStmt); ok && len(as.Lhs) == 1 && len(as.Rhs) == 1 {
+				if be, ok := as.Rhs[0].(*ast.BinaryExpr); ok && be.Op == token.QUO && calleeName(be.Y) == "RefundQuotientEIP3529" {
+					quotVar = ident(as.Lhs[0])
+				}
 			}
 			return true
 		})
+		// min(quotVar, avail): `if quotVar > avail { return avail }; return quotVar` (or the mirrored form)
+		guarded, plain := "", ""
+		for _, st := range fd.Body.List {
+			switch x := st.(type) {
+			case *ast.IfStmt:
+				be, ok := x.Cond.(*ast.BinaryExpr)
+				if !ok || len(x.Body.List) == 0 {
+					continue
+				}
+				ret, ok := x.Body.List[len(x.Body.List)-1].(*ast.ReturnStmt)
+				if !ok || len(ret.Results) != 1 {
+					continue
+				}
+				big_, small := "", ""
+				switch be.Op {
+				case token.GTR, token.GEQ:
+					big_, small = ident(be.X), ident(be.Y)
+				case token.LSS, token.LEQ:
+					big_, small = ident(be.Y), ident(be.X)
+				}
+				if big_ != "" && ident(ret.Results[0]) == small {
+					guarded = small + "<" + big_
+				}
+			case *ast.ReturnStmt:
+				if len(x.Results) == 1 {
+					plain = ident(x.Results[0])
+				}
+			}
+		}
+		capQuot = quotVar != "" && ((guarded == avail+"<"+quotVar && plain == quotVar) || (guarded == quotVar+"<"+avail && plain == avail))
 	}
 
 	one := big.NewInt(1)
